@@ -743,7 +743,21 @@ fn mk_ctx(keep: &Arc<CtxP>) -> CArc<c_void> {
     if FOREIGN_CTX.load(std::sync::atomic::Ordering::SeqCst) {
         return fctx::make(keep.clone());
     }
-    CArc::<CtxP>::from(keep.clone()).into_opaque()
+    // the handle reaches the object by the routes a host may take: straight from the Arc, or through the conversions of
+    // the handle types (CArc -> Option<CArcSome> -> CArc, take()) - none of which changes what it owns
+    static ROUTE: std::sync::atomic::AtomicUsize = std::sync::atomic::AtomicUsize::new(0);
+    let c = CArc::<CtxP>::from(keep.clone());
+    match ROUTE.fetch_add(1, std::sync::atomic::Ordering::SeqCst) % 3 {
+        0 => c.into_opaque(),
+        1 => c.transpose().expect("non-empty handle").transpose().into_opaque(),
+        _ => {
+            let mut c = c;
+            let t = c.take();
+            drop(c); // the emptied handle: a no-op
+            let some: Option<CArcSome<CtxP>> = t.into();
+            CArc::<CtxP>::from(some).into_opaque()
+        }
+    }
 }
 
 /// every other behaviour runs with contexts made by "foreign code" (CArc.tla: FromForeign)
